@@ -207,6 +207,28 @@ func c13FailHard(c *Ctx, m *searchModel, rec []*ssa.Function) {
 			if cut && !pushed {
 				badE = "takes a cut-off without having found a legal move [" + f + "]"
 			}
+			// a node's value may be returned without examining a move only through the early exits
+			// (cancelled, drawn, table hit, leaf evaluation) or as the mate/stalemate verdict
+			if !pushed && !hasAdj {
+				early := false
+				for _, fact := range st.Facts {
+					s := vstrOf(fact.Cond)
+					if fact.Truth && (strings.HasPrefix(s, "cancelled#") || strings.HasPrefix(s, "==(.Outcome(Result(")) {
+						early = true
+					}
+				}
+				for _, e := range sp.events {
+					if e.Kind == evRead && strings.Contains(rs, tagOf(e)) {
+						early = true // exact table hit returns the stored score
+					}
+					if e.Kind == evChild && len(e.Args) > 1 && vstrOf(e.Args[1]) != fn.Params[0].Name() && strings.Contains(rs, tagOf(e)) {
+						early = true // leaf evaluation
+					}
+				}
+				if !early {
+					badE = "returns " + rs + " for a node without having tried a move or produced the mate/stalemate verdict (a cut-off on the static evaluation hides a terminal node) [" + f + "]"
+				}
+			}
 			if hasAdj && pushed {
 				badE = "returns a mate/stalemate verdict although a legal move was found"
 			}
